@@ -12,6 +12,11 @@
     crc32_fast.c / crc64_fast.c as text), the lzma_check_* interface, and the Check field written/verified by the
     Block coder.  Two library builds: asan (CLMUL + generic + dispatch) and noclmul (generic only, as built for
     CPUs/compilers without CLMUL).
+(G/R/V, long inputs) GenCheckBig: single CRC calls over zero runs of about 2^31 / 2^32 (/ 2^33) bytes, expected value =
+    Check!ZeroRun (x^(8n) by square-and-multiply; = the bit-serial definition on short runs, MCCheck) replayed by
+    harness/cdrv/c14_big.c on a never-written anonymous mapping; SHA-256 over 2^29-1 .. 2^29+k (.. 2^30+k) bytes through
+    lzma_check_update: TraceCheck.tla validates the byte counter of every update and decides the digest from the logged
+    state before lzma_check_finish (64-bit big-endian bit count); hashlib is the reference for the whole message.
 zlib / hashlib / a Python bit-serial CRC64 are a second opinion on TLC's values only (disagreement = machinery error).
 """
 import json, os, subprocess, zlib, hashlib
@@ -111,6 +116,102 @@ def replay(ctx, cases, variant):
     return info
 
 
+# ------------------------------------------------------------------ very long inputs (64-bit size arithmetic)
+SHA_CHUNK = 1 << 24
+
+
+def limbs_to_int(limbs):
+    return sum(l << (16 * i) for i, l in enumerate(limbs))
+
+
+def big_jobs(ctx):
+    cfg = "GenCheckBig.cfg" if ctx.quick else "GenCheckBigThorough.cfg"
+    g = tlc.run("GenCheckBig", cfg=cfg, workers=2, timeout=600, env={"SEED": str(ctx.seed)})
+    ctx.add_tlc("GenCheckBig(%s)" % cfg, g, exhaustive=False)
+    jobs = cases_from_tlc(g.out)
+    if len(jobs) < 6:
+        raise MachineryError("GenCheckBig emitted only %d jobs\n%s" % (len(jobs), g.out[-1500:]))
+    return jobs
+
+
+def big_start(ctx, jobs):
+    """Start one driver process per job (plain -O2 build); they run beside the TLC generators."""
+    srcs = [os.path.join(CDRV, f) for f in ("c14_big.c", "c14_crc32.c", "c14_crc64.c", "c14_small.c")]
+    exe = build.cprog("c14_big", srcs, "plain")
+    e = dict(os.environ)
+    for k in ("LD_PRELOAD", "ASAN_OPTIONS", "UBSAN_OPTIONS"):
+        e.pop(k, None)
+    procs = []
+    for j in jobs:
+        job = j["job"]; n = limbs_to_int(job["size"])
+        if job["type"] == "sha256":
+            line = "H %d %d %d %d" % (n, job["lead"], SHA_CHUNK, ctx.seed % 251)
+        else:
+            # quick: dispatched + CLMUL code everywhere, table-driven code on the sizes beyond 2^32; thorough: everything
+            impls = "api,clmul" + (",generic" if (not ctx.quick or n > (1 << 32)) else "") + ("" if ctx.quick else ",small")
+            line = "Z %s %s %d %d %s %s" % (job["type"], limbs_to_bytes(job["init"]).hex(), n, job["off"],
+                                            bytes(j["expect"]).hex(), impls)
+        p = subprocess.Popen([exe], stdin=subprocess.PIPE, stdout=subprocess.PIPE, stderr=subprocess.STDOUT, text=True, env=e)
+        p.stdin.write(line + "\n"); p.stdin.close()
+        procs.append((j, line, p))
+    return procs
+
+
+def sha_reference(n, lead, seed):
+    """hashlib over the same bytes the driver feeds (256-byte pattern repeated)."""
+    pat = bytes(((j * 167 + seed) & 255) for j in range(256))
+    buf = pat * (SHA_CHUNK // 256)
+    h = hashlib.sha256()
+    given = 0
+    while given < n:
+        k = lead if (given == 0 and lead > 0) else SHA_CHUNK
+        k = min(k, n - given)
+        h.update(buf[:k] if k < SHA_CHUNK else buf)
+        given += k
+    return h.hexdigest()
+
+
+def big_collect(ctx, procs):
+    from lib import tracev
+    hists = []
+    ncrc = 0
+    for j, line, p in procs:
+        out = p.stdout.read()
+        rc = p.wait(timeout=1800)
+        job = j["job"]; n = limbs_to_int(job["size"])
+        if "NOMAP" in out:
+            ctx.notes.append("could not map %d bytes of zero pages: %s skipped" % (n, line[:40]))
+            continue
+        if rc != 0 or "DONE" not in out or "BADLINE" in out:
+            ctx.violation("big:crash:%s" % job["type"], out[-2000:], dict(kind="big", line=line))
+            continue
+        if job["type"] == "sha256":
+            evs = [json.loads(l[2:]) for l in out.splitlines() if l.startswith("T ")]
+            hists.append(("sha256 %d bytes" % n, evs))
+            got = [l.split()[-1] for l in out.splitlines() if l.startswith("DIGEST")][0]
+            ref = sha_reference(n, job["lead"], ctx.seed % 251)
+            ctx.case(key=("bigsha", n, job["lead"]))
+            if got != ref and not any(v["key"] == "big:sha256:digest" for v in ctx.violations):
+                # TraceCheck judges the finish step from the real pre-state; hashlib is the reference for the whole message
+                ctx.violation("big:sha256:digest", "SHA-256 of %d bytes: lzma_check_* gives %s, hashlib %s" % (n, got, ref),
+                              dict(kind="big", line=line, got=got, hashlib=ref))
+        else:
+            for l in out.splitlines():
+                if l.startswith(("SAME", "MISMATCH")):
+                    ncrc += 1
+                    f = dict(kv.split("=", 1) for kv in l.split()[1:])
+                    ctx.case(key=("bigcrc", job["type"], f["what"], n))
+                    if l.startswith("MISMATCH"):
+                        ctx.violation("big:%s:%s" % (job["type"], f["what"]),
+                                      "one call over %d zero bytes (%s), init %s: %s" % (n, job["name"], job["init"], l),
+                                      dict(kind="big", line=line, job=job, expect=j["expect"], mismatch=l))
+    if hists:
+        tracev.validate(ctx, "TraceCheck", hists, lambda label, e, i: "trace:sha256:%s" % e.get("e"), timeout=600)
+        ctx.sample(dict(kind="sha256_trace", label=hists[0][0], events=hists[0][1][:2] + hists[0][1][-2:]))
+    ctx.log("long inputs: %d CRC calls over 2..8 GiB zero runs compared with the closed form, %d SHA-256 executions "
+            "validated by TraceCheck" % (ncrc, len(hists)))
+
+
 def run(ctx):
     # (M)
     m = tlc.run("MCCheck", cfg="MCCheck.cfg" if ctx.quick else "MCCheckThorough.cfg", workers=TLC_WORKERS, timeout=1500, coverage=not ctx.quick)
@@ -123,6 +224,9 @@ def run(ctx):
     if not m.violation and m.distinct < 10000:
         raise MachineryError("MCCheck explored only %d states (vacuous model)" % m.distinct)
     ctx.log("MCCheck:", m.summary())
+
+    # (G/R/V) very long inputs: started now, collected at the end
+    bigp = big_start(ctx, big_jobs(ctx))
 
     # (G)
     cfg = "GenCheck.cfg" if ctx.quick else "GenCheckThorough.cfg"
@@ -153,12 +257,15 @@ def run(ctx):
     sha = [c for c in cases if c["type"] == "sha256" and 64 < len(c["bytes"]) < 80 and len(c["pieces"]) > 2]
     if sha:
         ctx.sample(dict(kind="replayed_case", case=sha[0]))
+    big_collect(ctx, bigp)
     ctx.extra["driver"] = infos
     ctx.extra["lengths_covered"] = "%d distinct lengths, max %d" % (len(lens), max(lens))
     ctx.assumptions += ["'all contents of a given length' is sampled (zero, FF, single bit, walking byte, LCG pseudo-random), "
                         "not exhausted", "only the x86-64 code paths (CLMUL, slice-by-8/4) are buildable here; ARM64/"
                         "LoongArch/big-endian/assembler variants are not exercised",
-                        "messages shorter than 2^28 bytes (SHA-256 bit count modelled in 32 bits)"]
+                        "messages shorter than 2^31 bytes; for SHA-256 messages of 512 MiB and more TLC decides the finish step from the "
+                        "logged real pre-state (TraceCheck) and hashlib is the reference for the chaining value",
+                        "inputs of 2 GiB and more are runs of zero bytes (CRC closed form ZeroRun) / a repeated 256-byte pattern (SHA-256)"]
     return ctx.finish(rule="evaluations = TLC-emitted (type, init, bytes, pieces, value) cases, each replayed at 64 alignments "
                       "into every implementation of two library builds; distinct by (type, init, pieces, bytes); "
                       "empty inputs count as trivial",
